@@ -175,6 +175,26 @@ def run_op(run, op):
         run.add(flat, "foliation().flatten() of {}".format(common.show(x)))
     elif name == "flatten" and mono:
         run.add(x.flatten(), "flatten")
+        # a diagram used as a box of another diagram (public constructor), to
+        # the right of some wires, twice over; flattened
+        y = run.pick(j)
+        if cls in ("monoidal", "rigid") and is_monoidal(y):
+            D = specs.mod(cls).Diagram
+            t = y.cod[:(args[2] or 0) % 3]
+            inner = D(t @ x.dom, t @ x.cod, [x], [len(t)])
+            specs.well_typed(inner, "diagram with a diagram as a box")
+            outer = D(t @ inner.dom, t @ inner.cod, [x.id(t @ t @ x.dom),
+                                                      inner], [0, len(t)])
+            specs.well_typed(outer, "diagram of diagrams of diagrams")
+            for nested, k in ((inner, 1), (outer, 2)):
+                flat = nested.flatten()
+                run.add(flat, "flatten of {} inside a diagram at offset {}"
+                        .format(common.show(x), len(t)))
+                expected = x.flatten()
+                for _ in range(k):
+                    expected = x.id(t) @ expected
+                require(bool(flat == expected), "C01:flatten-nested",
+                        lambda: "{!r} != {!r}".format(flat, expected))
     elif name in ("swap", "permutation") and cls in (
             "monoidal", "rigid", "tensor", "circuit", "zx"):
         y = run.pick(j)
